@@ -38,6 +38,7 @@ type cCase struct {
 	Schedule []string `json:"schedule,omitempty"`
 	Slow     int      `json:"slow,omitempty"` // microseconds the callable takes (stress)
 	Reps     int      `json:"reps,omitempty"`
+	Frozen   bool     `json:"frozen,omitempty"` // the cache is frozen before it is used (a module global after its module loaded)
 }
 
 type cTrace struct {
@@ -81,6 +82,11 @@ func newCWorld(c *cCase, rec *sched.Recorder) (*cWorld, error) {
 		return nil, fmt.Errorf("cache has no once attribute: %v", err)
 	}
 	w.once = o
+	if c.Frozen {
+		// what the interpreter does to every global of a module once the module has loaded:
+		// target functions only ever see a frozen cache
+		cv.Freeze()
+	}
 	return w, nil
 }
 
